@@ -136,9 +136,16 @@ def field_mentions(db, fn, depth=0, seen=None):
                         out.add((recv_root, fld, md))
             elif 'recv' in t:
                 members(t['recv'], 'r' if t.get('constm') else 'w')
-            for a in t.get('args', []):
+            for i, a in enumerate(t.get('args', [])):
                 # an argument handed to a non-const-accessor call may be modified through the reference
                 members(a, 'w' if not t.get('constm') or t.get('short') in ('adl_swap', 'swap') else 'r')
+                # a whole object (`*this`, `other`) handed to a helper: what the helper does to its parameter it does to that object
+                ra = root_of(a)
+                if ra and callee is not None and depth < 3 and i < len(callee.params) and not callee.pattern:
+                    pn = callee.params[i]['name']
+                    for (rr, fld, md) in field_mentions(db, callee, depth + 1, seen):
+                        if rr == pn:
+                            out.add((ra, fld, md))
             return
         if k == 'construct':
             for a in t.get('args', []):
